@@ -129,6 +129,10 @@ class Body(object):
         """(body path, block) in the original program (differs from (path, bb) only for flat views)."""
         return (self.path, bb)
 
+    def local_key(self, l):
+        """(body path, local) in the original program (flat views renumber the locals of inlined callees)."""
+        return (self.path, l)
+
     # ---- CFG (normal edges only; cleanup blocks are excluded) ----
     def succs(self, bb):
         if self._succ is None:
